@@ -181,6 +181,8 @@ def sources_str(body, op):
     for s in sorted(value_sources(body, op), key=str):
         if s[0] == "call":
             out.append("call:" + short_callee(s[1]))
+        elif s[0] in ("param", "upvar-param"):
+            out.append("%s#%s" % (s[0], s[1]))
         else:
             out.append("%s:%s" % (s[0], s[1]))
     return ",".join(out)
